@@ -263,6 +263,8 @@ def read_handle(w, t, val, nplike=False):
         shape = tuple(int(d) for d in val._shape)
         nd = len(shape)
         items = []
+        if any(d < 0 for d in shape) or int(np.prod(shape, dtype=object)) > 2_000_000:
+            return ("badshape", shape)  # (a garbage header: not iterated)
         for idx in c_indices(shape):
             items.append(read_handle(w, ty["item"], val[idx if nd > 1 else idx[0]], nplike))
         if nplike and schema[ty["item"]]["k"] == "sc":
